@@ -15,8 +15,8 @@ tests today (regenerated from `Where.Transform` / `Project.Transform` into `Gsu.
 is the sound one, with `decide`d two-row counter-models for the weaker conditions.
 The full statement "executed result = evalQ of the query as written" for *every* query is tied
 only by the differential run (harness/inject/dbms/query/zz_verif_c22_test.go).
-Not proved here: rename/extend pushing, join commutativity/association, where-into-join sides,
-leftjoin restriction, sort/reverse reading (see the report).
+Not proved here: rename/extend pushing, join commutativity/association, the right side of
+where-into-join, leftjoin restriction (sort order / reverse reading: see C23).
 -/
 import Gsu.Proofs.Qry
 import Gsu.Gen.QryCond
@@ -59,6 +59,18 @@ theorem where_over_minus (db : Db) (a b : Query) (e : Expr)
 theorem union_comm (db : Db) (a b : Query) (cs : List Col) :
     SetEq ((evalQ db (.union a b)).map (restrict cs)) ((evalQ db (.union b a)).map (restrict cs)) :=
   Gsu.Qry.union_comm db a b cs
+
+/-- a restriction that reads only the first source's columns moves into that source of a join
+(`Where.split`) -/
+theorem where_into_join_side (db : Db) (a b : Query) (e : Expr) (h : Sub e.cols (colsQ db a)) :
+    SetEq (evalQ db (.where_ (.join a b) e)) (evalQ db (.join (.where_ a e) b)) :=
+  Gsu.Qry.where_into_join_left db a b e h
+
+/-- the same for a product; `hwf`: the first source's rows carry the columns the restriction reads -/
+theorem where_into_times_side (db : Db) (a b : Query) (e : Expr)
+    (hwf : ∀ r1, r1 ∈ evalQ db a → ∀ c, c ∈ e.cols → r1.lookup c ≠ none) :
+    SetEq (evalQ db (.where_ (.times a b) e)) (evalQ db (.times (.where_ a e) b)) :=
+  Gsu.Qry.where_into_times_left db a b e hwf
 
 /-! ### past a summarize -/
 
